@@ -47,31 +47,20 @@ def main():
                 env["PYTHONPATH"] = root
                 r = subprocess.run(["/venv/bin/python", os.path.abspath(a.demo)], cwd=root, capture_output=True, text=True, env=env, timeout=1800)
                 print(f"DEMO on {label} tree: exit={r.returncode}", (r.stdout.strip().splitlines() or [""])[-1][:200])
-        # keep committed evidence/replays intact
-        bak = tempfile.mkdtemp(prefix="pmc_evbak_", dir="/tmp")
-        for d in ("evidence", "replays"):
-            if os.path.isdir(os.path.join(VERIF, d)):
-                shutil.copytree(os.path.join(VERIF, d), os.path.join(bak, d))
-        try:
-            for cid in [c for c in a.checks.split(",") if c]:
-                for rep in range(2 if a.twice else 1):
-                    env = dict(os.environ, VERIF_REPO=repo)
-                    if a.budget:
-                        env["VERIF_BUDGET_S"] = a.budget
-                    t = time.time()
-                    r = subprocess.run([os.path.join(VERIF, "check"), cid, "--tier", a.tier], capture_output=True, text=True, env=env)
-                    lines = [l for l in r.stdout.splitlines() if l.startswith(("VIOLATION", "KNOWN", "HARNESS", cid, "  ["))]
-                    print(f"CHECK {cid} exit={r.returncode} wall={time.time()-t:.0f}s")
-                    for l in lines[:12]:
-                        print("   ", l[:300])
-                    if r.returncode == 2:
-                        print(r.stdout[-2000:], r.stderr[-2000:])
-        finally:
-            for d in ("evidence", "replays"):
-                shutil.rmtree(os.path.join(VERIF, d), ignore_errors=True)
-                if os.path.isdir(os.path.join(bak, d)):
-                    shutil.copytree(os.path.join(bak, d), os.path.join(VERIF, d))
-            shutil.rmtree(bak, ignore_errors=True)
+        # outputs of mutant runs go to the scratch directory (VERIF_OUT_DIR), never to /verif/evidence
+        for cid in [c for c in a.checks.split(",") if c]:
+            for rep in range(2 if a.twice else 1):
+                env = dict(os.environ, VERIF_REPO=repo, VERIF_OUT_DIR=os.path.join(scratch, "out"))
+                if a.budget:
+                    env["VERIF_BUDGET_S"] = a.budget
+                t = time.time()
+                r = subprocess.run([os.path.join(VERIF, "check"), cid, "--tier", a.tier], capture_output=True, text=True, env=env)
+                lines = [l for l in r.stdout.splitlines() if l.startswith(("VIOLATION", "KNOWN", "HARNESS", cid, "  ["))]
+                print(f"CHECK {cid} exit={r.returncode} wall={time.time()-t:.0f}s")
+                for l in lines[:12]:
+                    print("   ", l[:300])
+                if r.returncode == 2:
+                    print(r.stdout[-2000:], r.stderr[-2000:])
     finally:
         shutil.rmtree(scratch, ignore_errors=True)
     return rc_all
